@@ -88,8 +88,10 @@ theorem umNone_reject {x : Val} (hx : x ≠ .none) : umNone x = .error .value :=
 /-- **Unmarshal side.** With enough fuel for the member routines to run (`n + 1`), the union routine
     returns None for None whenever None is a member (at whatever position) and otherwise exactly what
     trying the members *in declaration order* returns — the None-first rotation of the code is not
-    observable. -/
-theorem union_unmarshal_spec (env : Env) (L : Leaves) (n : Nat) (ms : List Ty) (x : Val) :
+    observable.  (`hplain`: the None members are written as None; a member naming None through an
+    alias behaves the same but needs as much extra fuel as it has wrappers, see C11.) -/
+theorem union_unmarshal_spec (env : Env) (L : Leaves) (n : Nat) (ms : List Ty) (x : Val)
+    (hplain : ∀ m ∈ ms, m.isNone = true → m = .none) :
     um env L (n + 2) (.union ms) x =
       if nullable ms && (match x with | .none => true | _ => false) then .ok .none
       else firstOk (ms.map (um env L (n + 1))) x := by
@@ -107,8 +109,8 @@ theorem union_unmarshal_spec (env : Env) (L : Leaves) (n : Nat) (ms : List Ty) (
       simp only [Err.isRejection, if_true, Bool.false_eq_true, if_false]
       symm
       apply firstOk_filter (fun m => !m.isNone) (um env L (n + 1)) x ms
-      intro m _ hk
-      have : m = .none := by cases m <;> simp_all [Ty.isNone]
+      intro m hmem hk
+      have : m = .none := hplain m hmem (by simpa using hk)
       subst this
       exact ⟨.value, by rw [hnone, umNone_reject hx], rfl⟩
 
@@ -132,10 +134,10 @@ theorem union_marshal_plain (env : Env) (L : Leaves) (n : Nat) (ms : List Ty) (v
 
 /-- ValueError exactly when every member rejects. -/
 theorem union_unmarshal_all_reject (env : Env) (L : Leaves) (n : Nat) (ms : List Ty) (x : Val)
-    (hx : x ≠ .none)
+    (hplain : ∀ m ∈ ms, m.isNone = true → m = .none) (hx : x ≠ .none)
     (h : ∀ m ∈ ms, ∃ e, um env L (n + 1) m x = .error e ∧ e.isRejection = true) :
     um env L (n + 2) (.union ms) x = .error .value := by
-  rw [union_unmarshal_spec]
+  rw [union_unmarshal_spec env L n ms x hplain]
   have hm : (match x with | .none => true | _ => false) = false := by
     cases x <;> first | rfl | exact absurd rfl hx
   simp only [Bool.and_false, Bool.false_eq_true, if_false]
